@@ -73,6 +73,14 @@ func c15Jobs() []c15Job {
   "g_helper":{"custom_func":{"name":"javascript","args":[{"const":"helper = function(x) { return 'h' + x }; helper(n)"},{"const":"n"},{"xpath":"n","type":"int"}]}},
   "h_probe":{"custom_func":{"name":"javascript","args":[{"const":"[typeof k, typeof t, typeof K, typeof cnt, typeof dbl, typeof seen, typeof helper].join('|')"}]}}}}}}`,
 			Input: `[{"n":1},{"n":2},{"n":3}]`},
+		// a script that enumerates its object argument (JSON.stringify, Object.keys, for-in)
+		c15Job{Name: "js-object-argument-enumerated", Schema: `{` + h("json") + `,"transform_declarations":{"FINAL_OUTPUT":{"xpath":"/*","object":{
+  "a_json":{"custom_func":{"name":"javascript","args":[{"const":"JSON.stringify(o)"},{"const":"o"},{"template":"OBJ"}]}},
+  "b_keys":{"custom_func":{"name":"javascript","args":[{"const":"Object.keys(o).join()"},{"const":"o"},{"template":"OBJ"}]}},
+  "c_forin":{"custom_func":{"name":"javascript","args":[{"const":"var s = ''; for (var k in o.inner) { s += k + '=' + o.inner[k] + ';' }; s"},{"const":"o"},{"template":"OBJ"}]}},
+  "d_list":{"custom_func":{"name":"javascript","args":[{"const":"JSON.stringify(l)"},{"const":"l"},{"array":[{"template":"OBJ"},{"xpath":"b"}]}]}}}},
+ "OBJ":{"object":{"zeta":{"xpath":"a"},"alpha":{"xpath":"b"},"mid":{"xpath":"c"},"k10":{"xpath":"a"},"k9":{"xpath":"b"},"inner":{"object":{"y":{"xpath":"a"},"x":{"xpath":"b"},"w":{"xpath":"c"},"v":{"xpath":"a"}}}}}}}`,
+			Input: `[{"a":"1","b":"2","c":"3"},{"a":"4","b":"5","c":"6"}]`},
 		c15Job{Name: "upper-with-callers-extension", Schema: upperSchema, Input: "alice\nBOB\n", CustomUpper: true},
 		c15Job{Name: "upper-with-builtin-extension", Schema: upperSchema, Input: "alice\nBOB\n"},
 	)
